@@ -8,6 +8,7 @@ import (
 	"path"
 	"path/filepath"
 	"strings"
+	"syscall"
 	"time"
 
 	"github.com/hknutzen/Netspoc-Approve/go/pkg/device"
@@ -16,8 +17,13 @@ import (
 	"verif/harness/internal/core"
 )
 
-// C12 part (a): all interleavings of the three system calls of
-// device.SetLock for 2 and 3 contenders under a cooperative scheduler.
+// C12 part (a): all interleavings of the system calls of device.SetLock
+// for 2 and 3 contenders - and of the housekeeping job's lock-file clean-up
+// (bin/delete-old-policies) as a further actor - under a cooperative
+// scheduler.  Stateless depth-first exploration: an execution is replayed
+// from scratch along a prefix of choices and completed with the default
+// choice (lowest enabled actor); every position behind the prefix is a
+// branch point for every other enabled actor.
 
 type lockEvent struct {
 	id       int
@@ -26,21 +32,92 @@ type lockEvent struct {
 }
 
 type lockRun struct {
-	schedule []int
+	choices  []int
+	enabled  [][]int // enabled actors at each step
 	results  []error
 	files    []*os.File
-	hang     int // id of a blocked contender, -1 = none
+	hang     int // id of a blocked actor, -1 = none
+	diverged bool
 	trace    []string
 }
 
-// runLockSchedule executes one interleaving: schedule[i] = contender that
-// performs the i-th step.  Returns false if the schedule is not feasible.
-func runLockSchedule(base string, names []string, schedule []int) *lockRun {
+// hkMode tells what the housekeeping job does with lock files, read from
+// the script itself: "guarded" (flock -n FILE rm -f FILE), "plain" (rm
+// without taking the lock), "" (lock files are left alone).
+func hkMode() string {
+	data, err := os.ReadFile(filepath.Join(repoDir(), "bin", "delete-old-policies"))
+	if err != nil {
+		return ""
+	}
+	for _, l := range strings.Split(string(data), "\n") {
+		t := strings.TrimSpace(l)
+		if strings.HasPrefix(t, "#") || !strings.Contains(t, "lock") || !strings.Contains(t, "rm ") {
+			continue
+		}
+		if strings.Contains(t, "flock -n {} rm") {
+			return "guarded"
+		}
+		return "plain"
+	}
+	// the loop over sub-directories names lock?
+	for _, l := range strings.Split(string(data), "\n") {
+		t := strings.TrimSpace(l)
+		if strings.HasPrefix(t, "for SUB in") && strings.Contains(t, "lock") {
+			return "plain"
+		}
+	}
+	return ""
+}
+
+func repoDir() string {
+	if d := os.Getenv("VERIF_REPO"); d != "" {
+		return d
+	}
+	return "/repo"
+}
+
+// housekeeper performs what 'flock -n FILE rm -f FILE' (util-linux flock:
+// open O_RDONLY|O_CREAT, flock LOCK_EX|LOCK_NB, run the command, exit) or a
+// plain 'rm -f FILE' does to the lock file of the device, one system call
+// per scheduling point.
+func housekeeper(mode, lockFile string) {
+	if mode == "plain" {
+		verifsched.Point("hk-unlink")
+		os.Remove(lockFile)
+		return
+	}
+	verifsched.Point("hk-open")
+	fh, err := os.OpenFile(lockFile, os.O_CREATE|os.O_RDONLY, 0666)
+	if err != nil {
+		return
+	}
+	verifsched.Point("hk-flock")
+	if syscall.Flock(int(fh.Fd()), syscall.LOCK_EX|syscall.LOCK_NB) != nil {
+		fh.Close()
+		return
+	}
+	verifsched.Point("hk-unlink")
+	os.Remove(lockFile)
+	verifsched.Point("hk-close")
+	fh.Close()
+}
+
+// runLock executes one interleaving along prefix, then with default choices.
+// Actors 0..len(names)-1 are contenders; with hk != "" the last actor is the
+// housekeeping job working on the lock file of device "router".
+func runLock(base string, names []string, hk string, prefix []int) *lockRun {
 	dir, _ := os.MkdirTemp(base, "lk")
 	defer os.RemoveAll(dir)
 	cfg := &program.Config{BaseDir: dir}
-	n := len(names)
-	r := &lockRun{schedule: schedule, results: make([]error, n), files: make([]*os.File, n), hang: -1}
+	nc := len(names)
+	n := nc
+	if hk != "" {
+		n++
+		// the job only looks at existing, old lock files
+		os.Mkdir(filepath.Join(dir, "lock"), 0755)
+		os.WriteFile(filepath.Join(dir, "lock", "router"), nil, 0644)
+	}
+	r := &lockRun{results: make([]error, nc), files: make([]*os.File, nc), hang: -1}
 	events := make(chan lockEvent)
 	resume := make([]chan struct{}, n)
 	current := -1
@@ -54,12 +131,16 @@ func runLockSchedule(base string, names []string, schedule []int) *lockRun {
 		resume[i] = make(chan struct{})
 		go func(i int) {
 			<-resume[i]
-			fh, err := device.SetLock(names[i], cfg)
-			r.files[i], r.results[i] = fh, err
+			if i < nc {
+				fh, err := device.SetLock(names[i], cfg)
+				r.files[i], r.results[i] = fh, err
+			} else {
+				housekeeper(hk, filepath.Join(dir, "lock", "router"))
+			}
 			events <- lockEvent{id: i, finished: true}
 		}(i)
 	}
-	wait := func(id int) (lockEvent, bool) {
+	wait := func() (lockEvent, bool) {
 		select {
 		case ev := <-events:
 			return ev, true
@@ -67,93 +148,202 @@ func runLockSchedule(base string, names []string, schedule []int) *lockRun {
 			return lockEvent{}, false
 		}
 	}
-	// bring every contender to its first point (nothing shared happens before)
+	done := make([]bool, n)
+	// bring every actor to its first point (nothing shared happens before)
 	for i := 0; i < n; i++ {
 		current = i
 		resume[i] <- struct{}{}
-		ev, ok := wait(i)
-		if !ok || ev.finished {
+		ev, ok := wait()
+		if !ok {
 			r.hang = i
 			return r
 		}
+		if ev.finished {
+			done[i] = true
+		}
 	}
-	for _, id := range schedule {
+	for step := 0; ; step++ {
+		var en []int
+		for i := 0; i < n; i++ {
+			if !done[i] {
+				en = append(en, i)
+			}
+		}
+		if len(en) == 0 {
+			break
+		}
+		id := en[0]
+		// default: the actor of the previous step goes on (no preemption)
+		if step > 0 {
+			for _, e := range en {
+				if e == r.choices[step-1] {
+					id = e
+				}
+			}
+		}
+		if step < len(prefix) {
+			id = prefix[step]
+			if done[id] {
+				r.diverged = true
+				return r
+			}
+		}
+		r.enabled = append(r.enabled, en)
+		r.choices = append(r.choices, id)
 		current = id
 		resume[id] <- struct{}{}
-		ev, ok := wait(id)
+		ev, ok := wait()
 		if !ok {
 			r.hang = id
 			r.trace = append(r.trace, fmt.Sprintf("%d blocked", id))
 			return r
 		}
 		if ev.finished {
+			done[id] = true
 			r.trace = append(r.trace, fmt.Sprintf("%d:done", id))
 		} else {
-			r.trace = append(r.trace, fmt.Sprintf("%d:%s", id, ev.point))
+			r.trace = append(r.trace, fmt.Sprintf("%d:->%s", id, ev.point))
 		}
 	}
 	return r
 }
 
-// schedules enumerates all interleavings of n contenders with k steps each.
-func schedules(n, k int) [][]int {
-	var out [][]int
-	left := make([]int, n)
-	for i := range left {
-		left[i] = k
-	}
-	var rec func(cur []int)
-	rec = func(cur []int) {
-		if len(cur) == n*k {
-			out = append(out, append([]int(nil), cur...))
-			return
+// exploreLock enumerates every complete interleaving (bound < 0) or every
+// interleaving with at most bound preemptions (a switch away from an actor
+// that could have gone on) below the prefixes assigned to this shard and
+// calls check for each.
+func exploreLock(ctx *core.Ctx, base string, names []string, hk string, bound int, check func(r *lockRun)) (execs int64, expired bool) {
+	const split = 4 // executions are dealt to the shards by their first choices
+	// cost of taking alt at position i of run r
+	cost := func(r *lockRun, i, alt int) int {
+		if i == 0 {
+			return 0
 		}
-		for i := 0; i < n; i++ {
-			if left[i] > 0 {
-				left[i]--
-				rec(append(cur, i))
-				left[i]++
+		prev := r.choices[i-1]
+		if alt == prev {
+			return 0
+		}
+		for _, e := range r.enabled[i] {
+			if e == prev {
+				return 1
+			}
+		}
+		return 0
+	}
+	preempts := func(r *lockRun, upto int) int {
+		n := 0
+		for i := 1; i < upto; i++ {
+			n += cost(r, i, r.choices[i])
+		}
+		return n
+	}
+	type topT struct {
+		choices []int
+	}
+	var tops []topT
+	var top func(prefix []int)
+	top = func(prefix []int) {
+		r := runLock(base, names, hk, prefix)
+		closeLockFiles(r)
+		tops = append(tops, topT{append([]int{}, r.choices...)})
+		for i := len(prefix); i < len(r.choices) && i < split; i++ {
+			for _, alt := range r.enabled[i] {
+				if alt != r.choices[i] && (bound < 0 || preempts(r, i)+cost(r, i, alt) <= bound) {
+					top(append(append([]int{}, r.choices[:i]...), alt))
+				}
 			}
 		}
 	}
-	rec(nil)
-	return out
+	top(nil)
+	var dfs func(r *lockRun, from int)
+	dfs = func(r *lockRun, from int) {
+		if ctx.Expired() {
+			closeLockFiles(r)
+			expired = true
+			return
+		}
+		execs++
+		check(r)
+		closeLockFiles(r)
+		for i := from; i < len(r.choices); i++ {
+			for _, alt := range r.enabled[i] {
+				if alt != r.choices[i] && (bound < 0 || preempts(r, i)+cost(r, i, alt) <= bound) {
+					p := append(append([]int{}, r.choices[:i]...), alt)
+					dfs(runLock(base, names, hk, p), i+1)
+				}
+			}
+		}
+	}
+	for ti, t := range tops {
+		if !ctx.Mine(int64(ti)) {
+			continue
+		}
+		n := len(t.choices)
+		if n > split {
+			n = split
+		}
+		dfs(runLock(base, names, hk, t.choices[:n]), split)
+	}
+	return
+}
+
+func closeLockFiles(r *lockRun) {
+	for i, f := range r.files {
+		if f != nil {
+			f.Close()
+			r.files[i] = nil
+		}
+	}
 }
 
 func c12Worker(ctx *core.Ctx) *core.Result {
 	res := core.NewResult()
 	base, _ := os.MkdirTemp("/dev/shm", "verif-c12-")
 	defer os.RemoveAll(base)
-	groups := [][]string{
-		{"router", "code/router"},
-		{"router", "/abs/policies/p1/code/ipv6/router"},
-		{"router", "code/router", "/abs/policies/p1/code/ipv6/router"},
-		{"router", "code/router", "router2"},
+	type groupT struct {
+		names []string
+		hk    string
+		bound int // preemption bound, -1 = all interleavings
 	}
-	var serial int64
-	for gi, names := range groups {
-		for _, sch := range schedules(len(names), 3) {
-			serial++
-			if !ctx.Mine(serial) {
-				continue
-			}
-			r := runLockSchedule(base, names, sch)
+	groups := []groupT{
+		{[]string{"router", "code/router"}, "", -1},
+		{[]string{"router", "/abs/policies/p1/code/ipv6/router"}, "", -1},
+		{[]string{"router", "code/router", "/abs/policies/p1/code/ipv6/router"}, "", -1},
+		{[]string{"router", "code/router", "router2"}, "", -1},
+	}
+	if hk := hkMode(); hk != "" {
+		res.Count("housekeeping_mode:"+hk, 1)
+		groups = append(groups, groupT{[]string{"router", "code/router"}, hk, -1})
+		if ctx.Thorough() {
+			// three contenders and the job: every interleaving with at most 5 preemptions
+			groups = append(groups, groupT{[]string{"router", "code/router", "/abs/policies/p1/code/ipv6/router"}, hk, 5})
+		}
+	} else {
+		res.Count("housekeeping_mode:none", 1)
+	}
+	for gi, g := range groups {
+		names := g.names
+		n, expired := exploreLock(ctx, base, names, g.hk, g.bound, func(r *lockRun) {
+			sch := r.choices
 			res.Evaluations++
 			res.Nontrivial++
 			res.Transitions += int64(len(sch))
 			res.States++
+			space := fmt.Sprintf("contenders=%v", names)
+			if g.hk != "" {
+				space += " housekeeping=" + g.hk
+			}
 			viol := func(sig, msg string) {
-				res.AddViolation(core.Violation{Property: "C12", Engine: "lockx", Space: fmt.Sprintf("contenders=%v", names),
+				res.AddViolation(core.Violation{Property: "C12", Engine: "lockx", Space: space,
 					Events: append([]string{fmt.Sprintf("schedule=%v", sch)}, r.trace...), Oracle: "one-holder-per-device", Signature: sig, Message: msg})
 			}
+			if r.diverged {
+				res.Broken = append(res.Broken, fmt.Sprintf("replay of schedule %v diverged", sch))
+				return
+			}
 			if r.hang >= 0 {
-				viol("contender-blocked", fmt.Sprintf("contender %d (%s) did not return from SetLock (blocking lock?)", r.hang, names[r.hang]))
-				for _, f := range r.files {
-					if f != nil {
-						f.Close()
-					}
-				}
-				continue
+				viol("contender-blocked", fmt.Sprintf("actor %d did not return (blocking lock?)", r.hang))
+				return
 			}
 			winners := map[string][]int{}
 			for i, err := range r.results {
@@ -171,20 +361,23 @@ func c12Worker(ctx *core.Ctx) *core.Result {
 				devs[path.Base(n)] = true
 			}
 			outcome := ""
-			for d := range devs {
+			for _, d := range sortedKeys(devs) {
 				outcome += fmt.Sprintf("%s:%d ", d, len(winners[d]))
-				if len(winners[d]) != 1 {
+				ok := len(winners[d]) == 1
+				if g.hk != "" && d == "router" {
+					// while the job holds the lock for its own moment every
+					// contender may be refused
+					ok = len(winners[d]) <= 1
+				}
+				if !ok {
 					viol(fmt.Sprintf("holders=%d", len(winners[d])), fmt.Sprintf("device %s has %d lock holders (contenders %v) under schedule %v", d, len(winners[d]), winners[d], sch))
 				}
 			}
 			res.Outcome(fmt.Sprintf("group%d %s first-winner=%v", gi, outcome, winners["router"]))
-			// release: a late contender must obtain the lock
-			for _, f := range r.files {
-				if f != nil {
-					f.Close()
-				}
-			}
-			_ = filepath.Join
+		})
+		res.Count(fmt.Sprintf("interleavings_group%d", gi), n)
+		if expired {
+			res.Incomplete = append(res.Incomplete, fmt.Sprintf("deadline inside group %d (%v housekeeping=%q) after %d interleavings of shard %d", gi, names, g.hk, n, ctx.Shard))
 		}
 	}
 	// after release (separate directory): holder, loser, release, late contender
